@@ -324,3 +324,159 @@ Proof.
 Qed.
 
 End Fa.
+
+(* ---------- (4) truthful success of a write under faults ---------- *)
+Section Fw.
+Variable hash : algo -> bytes -> bytes.
+Hypothesis HL : HashLen hash.
+
+(* faulty runs of bind: a faulty run of the first program, then a faulty run of the continuation *)
+Lemma frun_bind {A B} (p : prog A) (g : A -> prog B) f b f'' :
+  frun (bind p g) f b f'' -> exists a f', frun p f a f' /\ frun (g a) f' b f''.
+Proof.
+  revert f. induction p as [a|c k IH]; intros f H; cbn [bind] in H.
+  - exists a, f. split; [constructor|exact H].
+  - inversion H as [|c0 k0 f0 a0 f0' Hn|c0 k0 f0 e g0 a0 f0' Hf Hg Hn]; subst.
+    + destruct (IH _ _ Hn) as [a [f' [H1 H2]]]. exists a, f'. split; [apply FStep; exact H1|exact H2].
+    + destruct (IH _ _ Hn) as [a [f' [H1 H2]]]. exists a, f'. split; [eapply FFault; eassumption|exact H2].
+Qed.
+
+Lemma frun_ret {A} (a b : A) f f' : frun (Ret a) f b f' -> b = a /\ f' = f.
+Proof. intros H. inversion H; subst. auto. Qed.
+
+Lemma frun_do_inv {A} c (k : ret -> prog A) f a f' :
+  frun (Do c k) f a f' ->
+  frun (k (fst (exec c f))) (snd (exec c f)) a f' \/
+  (faultable c /\ exists e g, (g = f \/ In g (mid_states c f)) /\ frun (k (RErr e)) g a f').
+Proof.
+  intros H. inversion H as [|c0 k0 f0 a0 f0' Hn|c0 k0 f0 e g0 a0 f0' Hf Hg Hn]; subst; [left; exact Hn|right].
+  split; [exact Hf|]. exists e, g0. split; assumption.
+Qed.
+
+Lemma frun_unlink_quiet {A} l (r r' : res A) f f' : frun (unlink_quiet l r) f r' f' -> r' = r.
+Proof.
+  unfold unlink_quiet. intros H. inversion H as [|c0 k0 f0 a0 f0' Hn|c0 k0 f0 e g0 a0 f0' Hf Hg Hn]; subst;
+    apply frun_ret in Hn; tauto.
+Qed.
+
+Lemma frun_unlink_quiet_state {A} l (r r' : res A) f f' :
+  frun (unlink_quiet l r) f r' f' -> r' = r /\ (f' = f \/ f' = remove f l).
+Proof.
+  unfold unlink_quiet. intros H. inversion H as [|c0 k0 f0 a0 f0' Hn|c0 k0 f0 e g0 a0 f0' Hf Hg Hn]; subst.
+  - apply frun_ret in Hn as [-> ->]. split; [reflexivity|]. unfold exec. destruct (lookup f l) as [[d| |t]|]; cbn [snd]; auto.
+  - apply frun_ret in Hn as [-> ->]. split; [reflexivity|]. destruct Hg as [->|[]]. left. reflexivity.
+Qed.
+
+Lemma resolve_remove_other f t l : (forall n, t <> Ext n) -> t <> l -> resolve (remove f t) l = resolve f l.
+Proof.
+  intros Hext Hne. unfold resolve. rewrite lookup_remove_neq by congruence.
+  destruct (lookup f l) as [[d| |[n|tx]]|]; try reflexivity. rewrite lookup_remove_neq by (apply Hext). reflexivity.
+Qed.
+
+(* the "destination exists after a failed rename" branch *)
+Lemma exists_branch g cp n sri0 sri f' :
+  frun (Do (Exists (InCache cp)) (fun r2 => match r2 with
+          | RBool true => unlink_quiet (InCache [bs "tmp"; n]) (Ok sri0)
+          | _ => unlink_quiet (InCache [bs "tmp"; n]) (@Err integrity EIoErr) end)) g (Ok sri) f' ->
+  InCache [bs "tmp"; n] <> InCache cp ->
+  sri = sri0 /\ resolve f' (InCache cp) <> None.
+Proof.
+  intros H Hne. inversion H as [|c0 k0 f0 a0 f0' Hn|c0 k0 f0 e g0 a0 f0' Hf Hg Hn]; subst; [|destruct Hf].
+  unfold exec in Hn. cbn [fst snd] in Hn. destruct (resolve g (InCache cp)) as [nd|] eqn:Er.
+  - apply frun_unlink_quiet_state in Hn as [E [->| ->]]; inversion E; (split; [reflexivity|]).
+    + rewrite Er. discriminate.
+    + rewrite resolve_remove_other; [rewrite Er; discriminate|intros m; discriminate|exact Hne].
+  - apply frun_unlink_quiet in Hn. discriminate.
+Qed.
+
+(* closing under faults: an Ok answer means the content path holds a file — the writer's own bytes (published by the rename),
+   or something that was already there (the rename failed and [exists] said yes) *)
+Theorem close_writer_faulty_ok f w sri f' :
+  WInv f w ->
+  frun (close_writer hash w) f (Ok sri) f' ->
+  sri = sri_of hash (w_algo w) (w_data w) /\
+  (lookup f' (InCache (cpath hash (w_algo w) (w_data w))) = Some (File (w_data w)) \/
+   resolve f' (InCache (cpath hash (w_algo w) (w_data w))) <> None).
+Proof.
+  intros Hw Hr. pose proof Hw as [[n Hn] [Hwr [d [Hl Hm]]]].
+  unfold close_writer in Hr. rewrite (content_path_computed hash _ _ HL) in Hr.
+  set (cp := cpath hash (w_algo w) (w_data w)) in *.
+  assert (InCache [bs "tmp"; n] <> InCache cp) as Htc by (apply tmp_not_content).
+  apply frun_do_inv in Hr as [Hn1|[_ [e [g0 [_ Hn1]]]]].
+  2: { apply frun_unlink_quiet in Hn1. discriminate. }
+  assert (lookup (snd (exec (MkdirAll (parent cp)) f)) (w_tmp w) = Some (File d)) as Hl1.
+  { rewrite exec_mkdirall. apply mkdirs_keeps. exact Hl. }
+  destruct (exec (MkdirAll (parent cp)) f) as [r0 f1]. cbn [fst snd] in *.
+  assert (forall (rt : res unit) f2,
+            (match rt with Ok _ => lookup f2 (w_tmp w) = Some (File (w_data w)) | _ => True end) ->
+            frun (match rt with
+                  | Ok _ => Do (Rename (w_tmp w) (InCache cp)) (fun r => match r with
+                        | RErr _ => Do (Exists (InCache cp)) (fun r2 => match r2 with
+                              | RBool true => unlink_quiet (w_tmp w) (Ok (sri_of hash (w_algo w) (w_data w)))
+                              | _ => unlink_quiet (w_tmp w) (Err EIoErr) end)
+                        | _ => Ret (Ok (sri_of hash (w_algo w) (w_data w))) end)
+                  | _ => unlink_quiet (w_tmp w) (Err EIoErr) end) f2 (Ok sri) f' ->
+            sri = sri_of hash (w_algo w) (w_data w) /\
+            (lookup f' (InCache cp) = Some (File (w_data w)) \/ resolve f' (InCache cp) <> None)) as Hren.
+  { intros rt f2 Hafter Hc. destruct rt as [u|e| | |]; try (apply frun_unlink_quiet in Hc; discriminate).
+    rewrite Hn in *.
+    inversion Hc as [|c1 k1 f3 a1 f3' Hn2|c1 k1 f3 e1 g1 a1 f3' Hf2 Hg2 Hn2]; subst.
+    - remember (exec (Rename (InCache [bs "tmp"; n]) (InCache cp)) f2) as ex eqn:Eex. destruct ex as [r f3].
+      cbn [fst snd] in Hn2. unfold exec in Eex. rewrite Hafter in Eex.
+      assert ((r = ROk /\ f3 = update (remove f2 (InCache [bs "tmp"; n])) (InCache cp) (File (w_data w))) \/
+              (exists e, r = RErr e /\ f3 = f2)) as [[-> ->]|[e [-> ->]]].
+      { destruct (parent_ok f2 (InCache cp)); [destruct (lookup f2 (InCache cp)) as [[d0| |t0]|]|]; inversion Eex; subst; eauto. }
+      + apply frun_ret in Hn2 as [E1 ->]. inversion E1. split; [reflexivity|]. left. apply lookup_update_eq.
+      + destruct (exists_branch _ _ _ _ _ _ Hn2 Htc) as [E1 E2]. split; [exact E1|right; exact E2].
+    - destruct Hg2 as [->|[]]. destruct (exists_branch _ _ _ _ _ _ Hn2 Htc) as [E1 E2]. split; [exact E1|right; exact E2]. }
+  assert (frun (bind (match w_map w with
+                   | Some sz => if w_pos w <? sz then step_ok (Truncate (w_tmp w) (w_pos w)) else Ret (Ok tt)
+                   | None => Ret (Ok tt) end) (fun rt => match rt with
+            | Ok _ => Do (Rename (w_tmp w) (InCache cp)) (fun r => match r with
+                  | RErr _ => Do (Exists (InCache cp)) (fun r2 => match r2 with
+                        | RBool true => unlink_quiet (w_tmp w) (Ok (sri_of hash (w_algo w) (w_data w)))
+                        | _ => unlink_quiet (w_tmp w) (Err EIoErr) end)
+                  | _ => Ret (Ok (sri_of hash (w_algo w) (w_data w))) end)
+            | _ => unlink_quiet (w_tmp w) (Err EIoErr) end)) f1 (Ok sri) f' ->
+          sri = sri_of hash (w_algo w) (w_data w) /\
+          (lookup f' (InCache cp) = Some (File (w_data w)) \/ resolve f' (InCache cp) <> None)) as Hmain.
+  { intros Hb. apply frun_bind in Hb as [rt [f2 [Ht Hc]]]. apply (Hren rt f2); [|exact Hc].
+    destruct (w_map w) as [sz|].
+    - destruct Hm as [Hlen [Hpos [Htake Hle]]]. destruct (w_pos w <? sz) eqn:Elt.
+      + apply frun_step_ok in Ht as [[-> ->]|[-> _]]; [|exact I].
+        unfold step_ok. cbn [run]. rewrite (exec_truncate f1 _ d _ Hl1). cbn [run fst snd]. rewrite lookup_update_eq, Htake. reflexivity.
+      + apply frun_ret in Ht as [-> ->]. apply N.ltb_ge in Elt. assert (w_pos w = lenN d) as Epos by lia.
+        rewrite Epos, takeN_all in Htake. rewrite Hl1, Htake. reflexivity.
+    - apply frun_ret in Ht as [-> ->]. subst d. exact Hl1. }
+  destruct r0; try (apply Hmain; exact Hn1).
+  apply frun_unlink_quiet in Hn1. discriminate.
+Qed.
+
+(* the whole commit: Ok means the close published (or found) the content, and for a keyed writer the index insert answered Ok
+   from that state — [insert_faulty] then says the tree is that of the complete insert *)
+Theorem commit_faulty_ok f w now i f' :
+  WInv f w ->
+  frun (commit hash w now) f (Ok i) f' ->
+  exists f1,
+    frun (close_writer hash w) f (Ok (sri_of hash (w_algo w) (w_data w))) f1 /\
+    (lookup f1 (InCache (cpath hash (w_algo w) (w_data w))) = Some (File (w_data w)) \/
+     resolve f1 (InCache (cpath hash (w_algo w) (w_data w))) <> None) /\
+    match w_key w with
+    | None => f' = f1 /\ i = sri_of hash (w_algo w) (w_data w)
+    | Some key => exists o', frun (insert hash key o' now) f1 (Ok i) f'
+    end.
+Proof.
+  intros Hw Hr. unfold commit, rbind in Hr. apply frun_bind in Hr as [a [f1 [Hc Hrest]]].
+  destruct a as [wsri|e| | |]; try (apply frun_ret in Hrest as [E _]; discriminate).
+  destruct (close_writer_faulty_ok f w wsri f1 Hw Hc) as [-> Hcont].
+  exists f1. split; [exact Hc|]. split; [exact Hcont|].
+  destruct (match o_sri (w_opts w) with
+            | Some d => match sri_matches d (sri_of hash (w_algo w) (w_data w)) with Some _ => Some d | None => None end
+            | None => Some (sri_of hash (w_algo w) (w_data w)) end) as [final|];
+    [|apply frun_ret in Hrest as [E _]; discriminate].
+  destruct (match o_size (w_opts w) with Some s => negb (s =? w_written w) | None => false end); destruct (o_size (w_opts w)) as [s|];
+    try (apply frun_ret in Hrest as [E _]; discriminate);
+    (destruct (w_key w) as [key|]; [eexists; exact Hrest|apply frun_ret in Hrest as [E ->]; inversion E; auto]).
+Qed.
+
+End Fw.
